@@ -10,7 +10,8 @@ LA(oi, an, rn) == [oi |-> oi, an |-> an, rn |-> rn, mk |-> "", ty |-> ""]
 LAM(oi, an, rn, mk) == [oi |-> oi, an |-> an, rn |-> rn, mk |-> mk, ty |-> ""]
 LAT(oi, an, rn, ty) == [oi |-> oi, an |-> an, rn |-> rn, mk |-> "", ty |-> ty]
 D(t, i) == [t |-> t, i |-> i]
-Blk(name, nrexcl, atoms, inters, cite) == [name |-> name, nrexcl |-> nrexcl, atoms |-> atoms, inters |-> inters, cite |-> cite]
+\* macros: the parameter macros (`#define name value` lines) the block's polyply .itp file comes with
+Blk(name, nrexcl, atoms, inters, cite) == [name |-> name, nrexcl |-> nrexcl, atoms |-> atoms, inters |-> inters, cite |-> cite, macros |-> <<>>]
 Lnk(orders, atoms, inters) == [orders |-> orders, atoms |-> atoms, inters |-> inters, rep |-> <<>>, del |-> {}]
 File(syn, defs) == [syn |-> syn, defs |-> defs]
 
@@ -63,6 +64,21 @@ BlockQ == Blk("Q", 1, <<At("C1", "P1", "Q", 1), At("C2", "P2", "Q", 1)>>, <<In("
 KQB == [LBond({"Q"}, "C2", {"Q"}, "C1", "0.72", 1) EXCEPT !.rep = <<[a |-> 2, ty |-> "P1b"]>>]
 KQA == Lnk(<<0, 1>>, <<LA(1, "C1", {"Q"}), LA(1, "C2", {"Q"}), LAT(2, "C1", {"Q"}, "P1")>>, <<In("angles", <<1, 2, 3>>, "0.73", 1)>>)
 
+\* GROMOS-style polyply .itp input: RA's file defines the parameter macro gb_2 (and does not use it); RB's file names the bonded TYPE gb_2 as the
+\* parameter of its bond without defining it (grompp resolves it from the force-field files): the token is handed through
+BlockRA == [Blk("RA", 1, <<At("c1", "T1", "RA", 1), At("c2", "T2", "RA", 1)>>, <<In("bonds", <<1, 2>>, "0.81", 1)>>, {}) EXCEPT !.macros = <<[name |-> "gb_2", val |-> "0.1230"]>>]
+BlockRB == Blk("RB", 1, <<At("c1", "T1", "RB", 1), At("c2", "T3", "RB", 1)>>, <<In("bonds", <<1, 2>>, "gb_2", 1)>>, {})
+RAB == {"RA", "RB"}
+KRR == LBond(RAB, "c2", RAB, "c1", "0.82", 1)
+
+\* links with `>` / `<` orders that share a residue pattern but whose atom keys sort differently: an order-0 atom whose name starts with a digit
+\* (digits sort before `<` `>`, letters after them)
+BlockR3 == Blk("R", 1, <<At("A", "C1", "R", 1), At("B", "C2", "R", 1), At("1H", "H1", "R", 1)>>, <<In("bonds", <<1, 2>>, "0.91", 1), In("bonds", <<1, 3>>, "0.92", 1)>>, {})
+KGB == Lnk(<<0, 201>>, <<LA(1, "B", {"R"}), LA(2, "A", {"R"})>>, <<In("bonds", <<1, 2>>, "0.93", 1)>>)                          \* B >A
+KGA == Lnk(<<0, 201>>, <<LA(1, "1H", {"R"}), LA(1, "B", {"R"}), LA(2, "A", {"R"})>>, <<In("angles", <<1, 2, 3>>, "0.94", 1)>>)   \* 1H B >A
+KLB == Lnk(<<0, 301>>, <<LA(1, "A", {"R"}), LA(2, "1H", {"R"})>>, <<In("bonds", <<1, 2>>, "0.95", 1)>>)                         \* A <1H
+KLA == Lnk(<<0, 301>>, <<LA(1, "1H", {"R"}), LA(1, "A", {"R"}), LA(2, "B", {"R"})>>, <<In("angles", <<1, 2, 3>>, "0.96", 1)>>)   \* 1H A <B
+
 (* ---- modifications *)
 ModN == [name |-> "N-ter", atoms |-> <<[an |-> "BB", rep |-> TRUE, ty |-> "Qd"], [an |-> "SC1", rep |-> FALSE, ty |-> ""]>>,
          inters |-> <<[kind |-> "bonds", a |-> "BB", b |-> "SC1", par |-> "0.91"]>>]
@@ -98,7 +114,12 @@ FFcat == <<
   MkFF(<<BlockP>>, <<KPB, KPM>>, <<>>, {}, <<File("ff", <<D("b", 1), D("l", 1), D("l", 2)>>)>>),
   \* 10, 11: replace-link and type-selecting link on the same atom, in one file / in two files (both definition orders are presentations)
   MkFF(<<BlockQ>>, <<KQB, KQA>>, <<>>, {}, <<File("ff", <<D("b", 1), D("l", 1), D("l", 2)>>)>>),
-  MkFF(<<BlockQ>>, <<KQB, KQA>>, <<>>, {}, <<File("ff", <<D("b", 1), D("l", 1)>>), File("ff", <<D("l", 2)>>)>>)
+  MkFF(<<BlockQ>>, <<KQB, KQA>>, <<>>, {}, <<File("ff", <<D("b", 1), D("l", 1)>>), File("ff", <<D("l", 2)>>)>>),
+  \* 12: two polyply .itp files, one defines a parameter macro, the other uses the same token as a bonded type name (file orders; history inputs use subsets)
+  MkFF(<<BlockRA, BlockRB>>, <<KRR>>, <<>>, {}, <<File("itp", <<D("b", 1)>>), File("itp", <<D("b", 2)>>), File("ff", <<D("l", 1)>>)>>),
+  \* 13, 14: links sharing a residue pattern (`>` / `<` orders) whose residue graphs are numbered differently, in three files / in one file
+  MkFF(<<BlockR3>>, <<KGB, KGA>>, <<>>, {}, <<File("ff", <<D("b", 1)>>), File("ff", <<D("l", 1)>>), File("ff", <<D("l", 2)>>)>>),
+  MkFF(<<BlockR3>>, <<KGB, KGA, KLB, KLA>>, <<>>, {}, <<File("ff", <<D("b", 1), D("l", 1), D("l", 2), D("l", 3), D("l", 4)>>)>>)
 >>
 
 (* ---- residue graphs *)
@@ -149,12 +170,18 @@ CaseSeq == <<
   CaseM(36, 9, 3, <<"P", "P", "P">>, Tri, <<"", "x", "x">>),
   Case(37, 10, 1, <<"Q", "Q", "Q", "Q">>, NoFi(4), Chain(4), <<>>),
   Case(38, 11, 2, <<"Q", "Q", "Q">>, NoFi(3), Chain(3), <<>>),
-  Case(39, 11, 1, <<"Q", "Q", "Q", "Q">>, NoFi(4), Star4, <<>>)
+  Case(39, 11, 1, <<"Q", "Q", "Q", "Q">>, NoFi(4), Star4, <<>>),
+  Case(40, 12, 1, <<"RA", "RA", "RB", "RB">>, NoFi(4), Chain(4), <<>>),
+  Case(41, 12, 1, <<"RB", "RB", "RB">>, NoFi(3), Chain(3), <<>>),
+  Case(42, 12, 1, <<"RA", "RA">>, NoFi(2), Chain(2), <<>>),
+  Case(43, 13, 1, <<"R", "R", "R">>, NoFi(3), Chain(3), <<>>),
+  Case(44, 14, 2, <<"R", "R", "R", "R">>, NoFi(4), Star4, <<>>),
+  Case(45, 14, 1, <<"R", "R", "R">>, NoFi(3), Chain(3), <<>>)
 >>
 AllCases == ToSet(CaseSeq)
 CasesById(S) == {c \in AllCases : c.id \in S}
 \* the quick instance of the confluence check (thorough: AllCases)
-CasesQuick == CasesById({1, 2, 5, 8, 9, 11, 12, 13, 14, 16, 17, 20, 22, 23, 24, 26, 27, 30, 31, 33, 34, 36, 38})
+CasesQuick == CasesById({1, 2, 5, 8, 9, 11, 12, 13, 14, 16, 17, 20, 22, 23, 24, 26, 27, 30, 31, 33, 34, 36, 38, 40, 43, 45})
 \* small sub-instances for the sensitivity runs
 CasesSlice == CasesById({13})
 CasesFrag == CasesById({16})
@@ -167,9 +194,11 @@ CasesAdd == CasesById({8, 14})
 CasesStar == CasesById({31})
 CasesMark == CasesById({34})
 CasesRepl == CasesById({38})
+CasesDef == CasesById({40})
+CasesPat == CasesById({43})
 
 NoDev == [sliceAny |-> FALSE, key0 |-> FALSE, addAny |-> FALSE, firstMatchOnly |-> FALSE, orientLink |-> FALSE,
-          dfsTreeFrag |-> FALSE, fragIdOrder |-> FALSE, itpGlobal |-> FALSE, cacheFF |-> FALSE, writerAppend |-> FALSE, flushLate |-> FALSE, canonMatch |-> FALSE, baseOnly |-> FALSE, oncePerGroup |-> FALSE, inpathLeak |-> FALSE, nameCache |-> FALSE, readerCache |-> FALSE, replaceVisible |-> FALSE]
+          dfsTreeFrag |-> FALSE, fragIdOrder |-> FALSE, itpGlobal |-> FALSE, cacheFF |-> FALSE, writerAppend |-> FALSE, flushLate |-> FALSE, canonMatch |-> FALSE, baseOnly |-> FALSE, oncePerGroup |-> FALSE, inpathLeak |-> FALSE, nameCache |-> FALSE, readerCache |-> FALSE, replaceVisible |-> FALSE, patternCache |-> FALSE, defineLeak |-> FALSE]
 DevSliceAny == [NoDev EXCEPT !.sliceAny = TRUE, !.baseOnly = TRUE]
 DevKey0 == [NoDev EXCEPT !.key0 = TRUE, !.baseOnly = TRUE]
 DevAddAny == [NoDev EXCEPT !.addAny = TRUE, !.baseOnly = TRUE]
@@ -183,6 +212,8 @@ DevInpathLeak == [NoDev EXCEPT !.inpathLeak = TRUE]
 DevNameCache == [NoDev EXCEPT !.nameCache = TRUE, !.baseOnly = TRUE]
 DevReaderCache == [NoDev EXCEPT !.readerCache = TRUE]
 DevReplaceVisible == [NoDev EXCEPT !.replaceVisible = TRUE]
+DevPatternCache == [NoDev EXCEPT !.patternCache = TRUE]
+DevDefineLeak == [NoDev EXCEPT !.defineLeak = TRUE]
 DevCacheFF == [NoDev EXCEPT !.cacheFF = TRUE]
 DevWriterAppend == [NoDev EXCEPT !.writerAppend = TRUE]
 DevFlushLate == [NoDev EXCEPT !.flushLate = TRUE]
